@@ -41,7 +41,8 @@ CONSTANTS
     Options,     \* set of <<backend, new_eq_params, order, species form, written form>>: how the object is
                  \* built and called - backend "sympy" (exact parameters) / "numpy" / "math" (floats);
                  \* constants passed in params (TRUE) or taken from the system (FALSE); species in pool
-                 \* order "asc" or reversed "rev"; species given by "comp"osition or by "formula";
+                 \* order "asc" or reversed "rev"; species given by "comp"osition, by "formula", or by
+                 \* formula under "alias" keys that differ from the names (mapping key # Substance.name);
                  \* the equilibria written with their "net" coefficients, or with a species on BOTH
                  \* sides ("self": a participant, "other": a catalyst that does not take part, "inact":
                  \* listed as inactive reactant and inactive product) - the law only sees the net
@@ -87,8 +88,9 @@ NoExp == [ateq |-> FALSE, keeps |-> FALSE, zero |-> FALSE, q |-> <<>>, totc |-> 
 \* margins by which a judged state misses a quotient (relative) / a macro total (absolute)
 QuotientOff == \E i \in 1..NR : QLe(Hundredth, QAbsDiff(QDiv(expd.q[i], K[i]), QOne))
 TotalOff == \E i \in 1..Len(sys.B) : QLe(Hundredth, QAbsDiff(expd.totc[i], expd.tot0[i]))
-\* the constants the system object itself carries: those of the first evaluation
-SystemK == IF hist = <<>> THEN K ELSE hist[1].K
+\* the constants the system object itself carries: those of the first evaluation, or - when they are
+\* reassigned before every evaluation (own constants) - the current ones
+SystemK == IF hist = <<>> \/ ~cfg.opt[2] THEN K ELSE hist[1].K
 
 Init ==
     /\ phase = "sys" /\ sys = NoSys /\ ceq = <<>> /\ K = <<>> /\ xi = <<>>
@@ -177,7 +179,8 @@ Evaluation == [K |-> K, c |-> c, c0 |-> cinit, pert |-> pert, dexp |-> [j \in 1.
 \* the same residual object (same system, same formulation) is evaluated again with new parameters
 Again ==
     /\ phase = "done" /\ Len(hist) + 1 < MaxEvals
-    /\ cfg.opt[2]          \* other constants can only be handed over when they travel in params
+    \* (with new_eq_params = FALSE the object takes its constants from the system: the new ones are then
+    \*  ASSIGNED to the system's equilibria before the next evaluation - reassign a parameter, call again)
     /\ hist' = Append(hist, Evaluation)
     /\ ceq' = <<>> /\ K' = <<>> /\ xi' = <<>> /\ cinit' = <<>> /\ pert' = NoPert /\ c' = <<>> /\ expd' = NoExp
     /\ dexp' = <<>>
